@@ -1611,6 +1611,12 @@ func (fr *Frame) checkCallSiteAsserts(c *ssa.CallCommon, args []Term, preFn Term
 					names[k] = v
 				}
 			}
+			if key == "builtin.append" && len(c.Args) > 0 {
+				// ownbuf: decided statically (data flow over SSA): the slice appended to is a buffer built by this
+				// function (nil, make, string conversion, local array, or the result of appending to such a buffer), so an
+				// append in place cannot write into an array that a caller, a store or another object also holds
+				names["ownbuf"] = tval{t: boolTerm(ownedBuffer(c.Args[0], map[ssa.Value]bool{})), ty: tBool}
+			}
 			for _, cl := range m[name] {
 				oldSt := fr.entry
 				fromRoot := false
@@ -1625,8 +1631,46 @@ func (fr *Frame) checkCallSiteAsserts(c *ssa.CallCommon, args []Term, preFn Term
 				}
 				ctx := fr.newEvalCtx(st, oldSt, names)
 				ctx.oldFromRoot = fromRoot
-				v, err := ctx.eval(cl.E)
 				ck := fr.key + " callsite " + name + " " + cl.Text
+				if cl.Ghost {
+					gname := cl.E.Args[0].Name
+					cur, has := st.ghost[gname]
+					v, err := ctx.eval(cl.E.Args[1])
+					if err == nil && has && asStr(v.t).Sort == cur.Sort {
+						listed := false
+						for _, ct := range []*Contract{fr.contract, u.contract} {
+							if ct != nil {
+								for _, g := range ghostModifies(ct.Modifies) {
+									listed = listed || g == gname
+								}
+							}
+						}
+						if !listed {
+							err = fmt.Errorf("ghost(%s) is not in the modifies clause", gname)
+						}
+					} else if err == nil {
+						err = fmt.Errorf("%s is not a ghost variable of the sort of the right-hand side", gname)
+					}
+					if err != nil {
+						if u.callsiteErr == nil {
+							u.callsiteErr = map[string]string{}
+						}
+						u.callsiteErr[ck] = fmt.Sprintf("%s callsite %s %q: %v", fr.key, name, cl.Text, err)
+						continue
+					}
+					if u.callsiteBound == nil {
+						u.callsiteBound = map[string]bool{}
+					}
+					u.callsiteBound[ck] = true
+					g2 := make(map[string]Term, len(st.ghost))
+					for k, t := range st.ghost {
+						g2[k] = t
+					}
+					g2[gname] = u.define("gset!"+gname, asStr(v.t))
+					st.ghost = g2
+					continue
+				}
+				v, err := ctx.eval(cl.E)
 				if err != nil || v.t.Sort != SBool {
 					// a name of the clause is not in scope at this call of the callee (the clause is written for a later
 					// call): not applicable here; a clause that binds at no call site at all is reported at the end
@@ -1645,6 +1689,55 @@ func (fr *Frame) checkCallSiteAsserts(c *ssa.CallCommon, args []Term, preFn Term
 			}
 		}
 	}
+}
+
+func boolTerm(b bool) Term {
+	if b {
+		return True
+	}
+	return False
+}
+
+// ownedBuffer: every origin of the slice value v (through phis, reslicing and appends) is an allocation made by the
+// function itself.
+func ownedBuffer(v ssa.Value, seen map[ssa.Value]bool) bool {
+	if seen[v] {
+		return true
+	}
+	seen[v] = true
+	switch x := v.(type) {
+	case *ssa.Const:
+		return x.IsNil()
+	case *ssa.MakeSlice:
+		return true
+	case *ssa.Convert:
+		_, fromString := x.X.Type().Underlying().(*types.Basic)
+		return fromString
+	case *ssa.ChangeType:
+		return ownedBuffer(x.X, seen)
+	case *ssa.Slice:
+		if a, ok := x.X.(*ssa.Alloc); ok {
+			_, isArr := a.Type().Underlying().(*types.Pointer).Elem().Underlying().(*types.Array)
+			return isArr
+		}
+		if _, ok := x.X.Type().Underlying().(*types.Slice); ok {
+			return ownedBuffer(x.X, seen)
+		}
+		return false
+	case *ssa.Phi:
+		for _, e := range x.Edges {
+			if !ownedBuffer(e, seen) {
+				return false
+			}
+		}
+		return true
+	case *ssa.Call:
+		if b, ok := x.Call.Value.(*ssa.Builtin); ok && b.Name() == "append" && len(x.Call.Args) > 0 {
+			return ownedBuffer(x.Call.Args[0], seen)
+		}
+		return false
+	}
+	return false
 }
 
 func libFnSymbol(fn string, sig string, result int) string {
